@@ -30,6 +30,18 @@ func Encode(c *gen.Case, viaCore bool) (line []byte, problem string) {
 			}
 			enc = clone
 		}
+		// a third of the cases first send earlier entries (without, then with call-site fields)
+		// through the same encoder: the judged line must not depend on them
+		if hist := (len(c.Fields) + len(c.Ctx) + len(c.Ent.Message)) % 3; hist > 0 {
+			if b, err := enc.EncodeEntry(c.Ent, nil); err == nil {
+				b.Free()
+			}
+			if hist > 1 {
+				if b, err := enc.EncodeEntry(c.Ent, fields); err == nil {
+					b.Free()
+				}
+			}
+		}
 		buf, err := enc.EncodeEntry(c.Ent, fields)
 		if err != nil {
 			return nil, fmt.Sprintf("EncodeEntry returned error: %v", err)
@@ -42,6 +54,13 @@ func Encode(c *gen.Case, viaCore bool) (line []byte, problem string) {
 	core := zapcore.NewCore(enc, sink, zapcore.Level(-128))
 	for _, w := range c.Ctx {
 		core = core.With(gen.ZapFields(w))
+	}
+	if hist := (len(c.Fields) + len(c.Ctx) + len(c.Ent.Message)) % 3; hist > 0 {
+		_ = core.Write(c.Ent, nil)
+		if hist > 1 {
+			_ = core.Write(c.Ent, fields)
+		}
+		sink.Reset()
 	}
 	if err := core.Write(c.Ent, fields); err != nil {
 		return nil, fmt.Sprintf("core.Write returned error: %v", err)
